@@ -61,6 +61,11 @@ class SoftwareEosRepulseManager:
     def stop(self):
         """Stop software repulse."""
         self.machine.switch_controller.remove_switch_handler_by_keys(self._handlers)
+        if self._button_is_active:
+            # a repulse may have enabled the driver and the handler which
+            # would disable it on button release is gone now
+            self._button_is_active = False
+            self.driver.hw_driver.disable()
 
     def _button_active(self, **kwargs):
         del kwargs
